@@ -361,7 +361,14 @@ class MethodTr:
             li = self.as_int(b, lt, l.typ, node)
             ri = self.as_int(b, rt, r.typ, node)
             return b.done('(%s %s %s)' % (li, ops[type(node.op)], ri), INT)
-        if isinstance(node, (ast.Compare, ast.BoolOp)):
+        if isinstance(node, ast.Compare):
+            return self.cond(node)
+        if isinstance(node, ast.BoolOp):
+            # in VALUE position `a and b` / `a or b` return an operand: the same as the boolean only for Bool operands
+            for v in node.values:
+                if not (isinstance(v, (ast.Compare, ast.BoolOp)) or (isinstance(v, ast.UnaryOp) and isinstance(v.op, ast.Not))
+                        or (isinstance(v, ast.Constant) and isinstance(v.value, bool))):
+                    raise Unsupported(node, 'and/or returning an operand that is not a Bool')
             return self.cond(node)
         if isinstance(node, ast.Subscript):
             if isinstance(node.slice, ast.Slice):
@@ -1290,11 +1297,17 @@ def read_object(mod, obj):
 def _reachable_state(mod, rng):
     s = mod.IndexedSet(range(rng.randrange(0, 14)))
     for _ in range(rng.randrange(0, 12)):
-        if len(s) and rng.random() < 0.75:
-            s.remove(rng.choice(list(s)))
-        else:
-            s.add(rng.randrange(0, 40))
-    return read_object(mod, s)
+        try:                                # the class under test may be a broken variant: whatever state it is in
+            if len(s) and rng.random() < 0.75:      # when a call raises is a state to start from, too
+                s.remove(rng.choice(list(s)))
+            else:
+                s.add(rng.randrange(0, 40))
+        except Exception:  # noqa: BLE001
+            break
+    try:
+        return read_object(mod, s)
+    except Exception:  # noqa: BLE001
+        return _random_table(rng)
 
 
 def _random_table(rng):
@@ -1368,6 +1381,52 @@ def _enc_arg(t, v, toks):
         _enc_val(v, toks)
     else:
         toks.append(v)
+
+
+# snippets just outside the subset: every one must be refused (`Unsupported`), never translated
+_REJECT_HEAD = '''
+from bisect import bisect_left
+_MISSING = object()
+_COMPACTION_FACTOR = 8
+class IndexedSet:
+    def reset(self):
+        self.scratch = []
+    def _add_dead(self, start, stop=None):
+'''
+REJECTS = [
+    ('alias of an attribute that another method rebinds', 'dints = self.scratch\n        dints.append(start)', {'scratch': 'List Val'}),
+    ('alias bound twice', 'dints = self.dead_indices\n        dints = self.dead_indices\n        dints.append(start)', {}),
+    ('list display as an argument', 'self.dead_indices.append([start, start])', {}),
+    ('nested display', 'x = [[start], start]', {}),
+    ('two dynamic values ordered', 'a = self.dead_indices[0]\n        b = self.dead_indices[1]\n        if a < b:\n            return', {}),
+    ('equality of a dynamic value and an int', 'a = self.dead_indices[0]\n        if a == start:\n            return', {}),
+    ('true division outside the declared comparison', 'x = start / _COMPACTION_FACTOR', {}),
+    ('undeclared attribute', 'self.other = start', {}),
+    ('rebinding a list attribute', 'self.dead_indices = []', {}),
+    ('dynamic value as an index', 'a = self.dead_indices[0]\n        b = self.dead_indices[a]', {}),
+    ('for loop', 'for x in self.dead_indices:\n            pass', {}),
+    ('nested function', 'def f():\n            return 1\n        return', {}),
+    ('bisect_left rebound', 'bisect_left = None\n        i = bisect_left(self.dead_indices, start)', {}),
+    ('and/or returning an operand', 'x = start or 3', {}),
+    ('conditional expression', 'x = start if start else 3', {}),
+    ('keyword argument', 'self.dead_indices.insert(0, x=start)', {}),
+    ('bare raise', 'try:\n            x = self.item_index_map.pop(start)\n        except KeyError:\n            raise', {}),
+    ('while/else', 'while start:\n            break\n        else:\n            pass', {}),
+]
+
+
+def reject_tests():
+    """-> list of snippets that were NOT refused"""
+    import srctie_specs
+    bad = []
+    for why, body, extra in REJECTS:
+        cls = dict(srctie_specs.INDEXED_SET, methods=[], state=dict(srctie_specs.INDEXED_SET['state'], **extra))
+        sp = {'py': '_add_dead', 'params': {'start': 'Int', 'stop': 'Option Int'}, 'result': 'None', 'cls': cls,
+              'qualname': 'IndexedSet._add_dead', 'lean_name': 'IndexedSet.add_dead', 'tie_theorem': '-', 'module': 'snippet'}
+        text, infos = translate_source(_REJECT_HEAD + '        ' + body + '\n', [sp], 'snippet', 'snippet.py')
+        if not infos[0].get('error'):
+            bad.append(why)
+    return bad
 
 
 def selftest(pids, quick=False, seed=0, verbose=True, repo=None):
@@ -1469,6 +1528,10 @@ def selftest(pids, quick=False, seed=0, verbose=True, repo=None):
     for sp in specs:
         if sp not in live:
             report.setdefault(sp['lean_name'], {'cases': 0, 'not_translated': True})
+    not_refused = reject_tests()
+    report['c11_reject_snippets'] = {'cases': len(REJECTS), 'refused': len(REJECTS) - len(not_refused), 'mismatches': len(not_refused)}
+    for why in not_refused:
+        mismatches.append({'function': 'reject snippet', 'case': why, 'python': 'must be refused', 'lean': 'translated'})
     if verbose:
         for k, v in report.items():
             print('  %-40s %s' % (k, v))
